@@ -60,16 +60,20 @@ def showQ (q : List (Nat × Nat)) : String := ";".intercalate (q.map fun e => s!
 def showState (s : State) : String :=
   let ps := s.props.mergeSort (fun a b => a.id ≤ b.id)
   let ds := s.deps.mergeSort (fun a b => a.pid < b.pid || (a.pid == b.pid && a.who ≤ b.who))
-  let bs := s.bal.mergeSort (fun a b => a.1 ≤ b.1)
   let cs := (s.custom.map fun c => (String.ofList c.1, c.2)).mergeSort (fun a b => a.1 ≤ b.1)
   s!"gov={s.gov} props=[{";".intercalate (ps.map showProp)}] deps=[{";".intercalate (ds.map fun d => s!"{d.pid}/{d.who}={d.amt}")}]" ++
-  s!" inact=[{showQ s.inactive}] act=[{showQ s.active}] bal=[{";".intercalate (bs.map fun b => s!"{b.1}={b.2}")}]" ++
+  s!" inact=[{showQ s.inactive}] act=[{showQ s.active}] bal=[{";".intercalate ([0, 1, 2, 3].map fun a => s!"{a}={getBal s.bal a}")}]" ++
   s!" kv={getKv s.kv 0},{getKv s.kv 1},{getKv s.kv 2},{getKv s.kv 3}" ++
   s!" cust=[{";".intercalate (cs.map fun c => s!"{c.1}={c.2.depositRatio}/{c.2.votingPeriod}/{c.2.quorum}")}]"
 
 def stepLine (s : State) (line : String) : State × String :=
   match words line with
   | "reset" :: _ => (init, "ok")
+  | ["gcustom", url, r, p, q] =>
+    -- genesis custom parameters, read from the real store at the start of a sequence
+    match nat? r, nat? p, nat? q with
+    | some r, some p, some q => ((step s (.updateCustom url.toList (some ⟨r, p, q⟩))).1, "ok")
+    | _, _, _ => (s, "bad-op")
   | ws =>
     match parseOp ws with
     | none => (s, "bad-op")
